@@ -216,6 +216,8 @@ package app
 //@   ensures [C18:failure_returns_running_config] !result1 ==> result0 == running
 //@   ensures [C18:failure_enters_no_write_section] !result1 ==> writeSections == old(writeSections)
 //@   ensures [C18:success_switches_in_one_write_section] result1 ==> writeSections == old(writeSections) + 1
+//@   sets reloadOK := result1
+//@   ensures [recorded] reloadOK == result1
 
 //@ fieldfunc admin.ManagementEndpointMutationResult.PostWriteValidate() (err)
 //@ extern param:mutation(cfg, compiled) (result, err)
@@ -227,6 +229,8 @@ package app
 //@   calls writeFileAtomic requires [C18:writes_only_compiling_content_or_the_previous_content] arg0 == path && ((arg1 == formatted && compiledOKContent == formatted) || arg1 == data)
 //@   ensures [C18:failed_mutation_puts_previous_content_back] result2 != nil && renames == old(renames) + 2 ==> renamedContent == local(data)
 //@   ensures [C18:at_most_forward_and_rollback_write] renames >= old(renames) && renames <= old(renames) + 2
+//@   ensures [C18:applied_only_through_the_gated_reload] result2 == nil && result0.Applied ==> reloadOK
+//@   ensures [C18:failed_or_unapplied_mutation_leaves_runtime_state_alone] result2 != nil || !result0.Applied ==> writeSections == old(writeSections)
 //@   ensures [C18:success_means_written_once_and_reloaded] result2 == nil && result0.Applied ==> renames == old(renames) + 1 && renamedContent == local(formatted)
 
 // ---- C15/C12/C07: per-route answers the admin and ingress handlers are wired with come from the current route table ----
